@@ -117,6 +117,10 @@ enum Job {
     Float { lit: String, clean: String },
     Str { s: String, lit: String, style: String, q: char },
     Raw { lit: String },
+    /// a literal in PATTERN position: `match <value> { <pattern> -> "hit"  _ -> "miss" }`
+    Pat { kind: &'static str, value: String, pattern: String, want: String, model_req: Option<String> },
+    /// a program behind a `#!` line
+    Shebang { src: String, want: String },
 }
 
 fn main() {
@@ -216,11 +220,59 @@ fn main() {
     jobs.push(Job::Str { s: "hello\nworld".into(), lit: "\"\"\"\n\thello\n\tworld\n\t\"\"\"".into(), style: "triple-block-tabs".into(), q: 't' });
     jobs.push(Job::Str { s: "hello\n  world".into(), lit: "\"\"\"\n\thello\n\t  world\n\"\"\"".into(), style: "triple-block-tabs".into(), q: 't' });
 
+    // ---- literals in pattern position (parse_match_pattern has its own IntLit/FloatLit/StringLit arms)
+    let n_pat = if quick { 120 } else { 2000 };
+    let pat_mags: Vec<u128> = vec![0, 7, 1000, 4294967296, 9223372036854775806, 9223372036854775807, 9223372036854775808, 18446744073709551616, 99999999999999999999];
+    for k in 0..n_pat {
+        let m = if k < pat_mags.len() { pat_mags[k] } else { match ctx.rng.below(3) { 0 => ctx.rng.below(100000) as u128, 1 => (ctx.rng.next() >> 1) as u128, _ => (1u128 << 63) - 3 + ctx.rng.below(6) as u128 } };
+        let digits = format!("{m}");
+        let pattern = with_underscores(&mut ctx.rng, &digits);
+        let in_range = m <= i64::MAX as u128;
+        let value = if in_range { digits.clone() } else { "5".into() };
+        jobs.push(Job::Pat { kind: "int", value: value.clone(), pattern, want: if in_range { "ok hit".into() } else { "rejected".into() },
+                             model_req: Some(format!("intlit 0 {digits}")) });
+        if in_range && m > 0 {
+            let miss = with_underscores(&mut ctx.rng, &format!("{}", m - 1));
+            jobs.push(Job::Pat { kind: "int-miss", value, pattern: miss, want: "ok miss".into(), model_req: None });
+        }
+    }
+    for _ in 0..(n_pat / 3) {
+        let ip: String = (0..1 + ctx.rng.below(6)).map(|_| char::from(b'0' + ctx.rng.below(10) as u8)).collect();
+        let fp: String = (0..1 + ctx.rng.below(6)).map(|_| char::from(b'0' + ctx.rng.below(10) as u8)).collect();
+        let pattern = format!("{}.{}", with_underscores(&mut ctx.rng, &ip), with_underscores(&mut ctx.rng, &fp));
+        jobs.push(Job::Pat { kind: "float", value: format!("{ip}.{fp}"), pattern, want: "ok hit".into(), model_req: None });
+    }
+    for i in 0..(n_pat / 2) {
+        let s = gen_string(&mut ctx.rng, 10);
+        let (qv, qp) = if i % 2 == 0 { ('s', 'd') } else { ('d', 's') };
+        let spell = |q: char, t: &str| if q == 's' { format!("'{}'", escape('s', t)) } else { format!("\"{}\"", escape('d', t)) };
+        jobs.push(Job::Pat { kind: "string", value: spell(qv, &s), pattern: spell(qp, &s), want: "ok hit".into(), model_req: None });
+        jobs.push(Job::Pat { kind: "string-miss", value: spell(qv, &s), pattern: spell(qp, &format!("{s}\u{e9}")), want: "ok miss".into(), model_req: None });
+    }
+    // ---- shebang first line (lexer: skipped up to the line break), also with non-ASCII text in it
+    for (i, line) in ["#!/usr/bin/env abra", "#!", "#! é 漢 \"quoted\" /* x", "#!/bin/abra -x // c"].iter().enumerate() {
+        let s = gen_string(&mut ctx.rng, 8);
+        let src = format!("{line}\nprint(\"{}\")\n", escape('d', &s));
+        jobs.push(Job::Shebang { src, want: format!("ok {s}") });
+        if i == 0 { jobs.push(Job::Shebang { src: "#!only a shebang line".into(), want: "ok ".into() }); }
+    }
+
     struct Out { lex: String, run: Option<String> }
     let outs = par_map(&jobs, |j| match j {
         Job::Int { lit, .. } | Job::Float { lit, .. } | Job::Str { lit, .. } =>
             Out { lex: impl_lex(lit, true), run: Some(run_print(lit)) },
         Job::Raw { lit } => Out { lex: impl_lex(lit, true), run: None },
+        Job::Pat { value, pattern, .. } => {
+            let src = format!("let v = {value}\nprint(match v {{\n  {pattern} -> \"hit\"\n  _ -> \"miss\"\n}})\n");
+            let r = run_program(&src);
+            let got = match &r.outcome { Outcome::Done => format!("ok {}", r.out), Outcome::Rejected(_) => "rejected".into(), o => format!("other {}", o.tag()) };
+            Out { lex: impl_lex(pattern, true), run: Some(got) }
+        }
+        Job::Shebang { src, .. } => {
+            let r = run_program(src);
+            let got = match &r.outcome { Outcome::Done => format!("ok {}", r.out), Outcome::Rejected(_) => "rejected".into(), o => format!("other {}", o.tag()) };
+            Out { lex: impl_lex(src, true), run: Some(got) }
+        }
     });
 
     for (j, o) in jobs.iter().zip(outs) {
@@ -268,6 +320,25 @@ fn main() {
                 let want_run = format!("ok {s}");
                 if o.run.as_deref() != Some(want_run.as_str()) {
                     ctx.spec_fail(format!("string literal {lit:?} ({style}): program printed {:?}, intended text {s:?}", o.run));
+                }
+            }
+            Job::Pat { kind, value, pattern, want, model_req } => {
+                ctx.count(&format!("pattern:{kind}"));
+                ctx.case(format!("lex {} #pattern-{kind}", hex_str(pattern)), o.lex.clone());
+                let got = o.run.clone().unwrap_or_default();
+                if got != *want {
+                    ctx.spec_fail(format!("literal pattern `{pattern}` against the value `{value}`: program gives `{got}`, expected `{want}`"));
+                }
+                if let Some(req) = model_req {
+                    let as_model = if got == "ok hit" { format!("ok {}", value) } else if got == "rejected" { "range".to_string() } else { got.clone() };
+                    ctx.case(format!("{req} #pattern"), as_model);
+                }
+            }
+            Job::Shebang { src, want } => {
+                ctx.count("shebang");
+                ctx.case(format!("lex {} #shebang", hex_str(src)), o.lex.clone());
+                if o.run.as_deref() != Some(want.as_str()) {
+                    ctx.spec_fail(format!("program behind a `#!` line {src:?}: got {:?}, expected `{want}`", o.run));
                 }
             }
             Job::Raw { lit } => {
